@@ -615,3 +615,37 @@ def run_resumed(ctx, n, pred, what):
     ctx.traces_validated += n_eval
     ctx.distribution["resumed_runs"] = cnt
     ctx.rule += "; plus %s on runs that were paused at a step k and resumed with both initialisation flags off (real code only)" % what
+
+
+def run_unit_time(ctx, n, pred, what):
+    """real runs with simulate(unit_time=2 or 3) (no project absence): the clock then advances by unit_time per
+    step while every log gets one entry per step (kept finding C08-F20), so only predicates that do not index the
+    logs by the clock can be evaluated — `pred` gets initLog=False in its params to say so.  Real code only."""
+    n_eval = 0
+    cnt = dict(cases=0, violations=0, exceptions=0)
+    for i in range(n):
+        rng, spec, params = case_of(ctx.seed + 61, i)
+        params = dict(params, initState=True, initLog=True, maxTime=60, absence=[])
+        params.pop("warmup", None)
+        u = rng.choice([2, 3])
+        case = dict(stream="unit_time", seed=ctx.seed + 61, index=i, spec=spec, params=params, unit_time=u)
+        try:
+            project = build(spec)
+            ix = Index(project)
+            model = extract_model(project, ix)
+            real_simulate(project, params, None, unit_time=u)
+            st = snapshot(project, ix)
+        except Exception as e:
+            cnt["exceptions"] += 1
+            ctx.violations.append(dict(property=ctx.pid, what="simulate(unit_time=%d) raised %s: %s" % (u, type(e).__name__, e), case=case))
+            continue
+        cnt["cases"] += 1
+        n_eval += 1
+        vs = pred(model, dict(params, initLog=False), dict(final=st, snaps=[], pre=None, exc=None))
+        if vs:
+            cnt["violations"] += 1
+            ctx.violations.append(dict(vs[0], what="simulate(unit_time=%d): %s" % (u, vs[0]["what"]), case=case))
+    ctx.evaluations += n_eval
+    ctx.traces_validated += n_eval
+    ctx.distribution["unit_time_runs"] = cnt
+    ctx.rule += "; plus %s on real runs with unit_time = 2 or 3 (real code only; clauses that index the logs by the clock are skipped)" % what
